@@ -391,3 +391,54 @@ func startPointHandedOver(p *core.Path, recv ssa.Value, at ssa.Instruction, vars
 	}
 	return nil, nil
 }
+
+// ---------------------------------------------------------------- the sender's request built in a variable
+
+// flushArgsOnPath is flushArgsAt for a call that hands over a request struct
+// which is not one plain literal: a private struct variable (its address goes
+// nowhere) that was filled by a literal and then adjusted field by field
+// (`req := R{…, offset: prev}; if commit { req.offset = last }; send(req)`).
+// Each role is the value its field holds on this path when the variable is read
+// for the call (core.Path.RecordField).
+func (c *senderCtx) flushArgsOnPath(p *core.Path, s core.Site) (args [3]ssa.Value, ok bool) {
+	if a, isPlain := c.flushArgsAt(s); isPlain {
+		return a, true
+	}
+	idx, _, isStruct := c.reqFields()
+	a := s.Common().Args
+	if !isStruct || len(a) != 1 {
+		return args, false
+	}
+	for k := 0; k < 3; k++ {
+		v := p.RecordField(core.Unwrap(a[0]), idx[k])
+		if v == nil {
+			return args, false
+		}
+		args[k] = v
+	}
+	return args, true
+}
+
+// flushOffsetSources: for the same kind of call, flow-insensitively, every
+// value the offset field of the request may hold (core.RecordFieldSources: the
+// stores into the field and into the records it is copied from).
+func (c *senderCtx) flushOffsetSources(s core.Site) ([]ssa.Value, bool) {
+	idx, _, isStruct := c.reqFields()
+	a := s.Common().Args
+	if !isStruct || len(a) != 1 {
+		return nil, false
+	}
+	ld, ok := core.Unwrap(a[0]).(*ssa.UnOp)
+	if !ok || ld.Op != token.MUL {
+		return nil, false
+	}
+	al, ok := ld.X.(*ssa.Alloc)
+	if !ok {
+		return nil, false
+	}
+	vals, known := core.RecordFieldSources(al, idx[2])
+	if !known || len(vals) == 0 {
+		return nil, false
+	}
+	return vals, true
+}
